@@ -28,6 +28,10 @@ def run(chk, tier):
         F = load(chk, cfg)
         from props import builder as B
         B.conversion_table(chk, F, 'R12.7', cfg)
+        # R12.13 an ordered single-use value is requested at the slot its clause was declared at: only ordered patterns reserve slots (an
+        # any-order clause in front must not shift it out of reach) - the slot assignment shared with C04
+        from props.c04 import range_assignment
+        range_assignment(chk, F, 'R12.13', cfg)
         # R12.12 the quantifier of a single-use value advances the running response index by its count, so a response that follows with
         # then() starts behind it and never shadows the value (every builder API function: push before quantify, documented count)
         B.api_table(chk, F, 'R12.12', cfg)
